@@ -74,7 +74,7 @@ Proof.
   destruct (is_valid_child t _ _) as [[]|y]; cbn [negb mbind node_of lift]; try apply vis_below_refl.
   unfold pointing. rewrite Hp, Ht. cbn [oid_eqb orb negb]. rewrite Nat.eqb_refl. cbn [orb negb].
   unfold append_attached. cbn [mbind node_of lift].
-  destruct (admission_checks _ _) as [[]|y]; [|apply vis_below_refl].
+  destruct (acceptance_checks _ _) as [[]|y]; [|apply vis_below_refl].
   rewrite Hp, Ht. cbn [oid_eqb]. rewrite Nat.eqb_refl.
   unfold do_tappend, modify. cbn [fst snd].
   (* the segment counter looks at the parent pointer, which is still None *)
